@@ -60,12 +60,12 @@ def suites(tier, seed):
     s.append(dict(name="E2 1+1 x 2 ops (exhaustive)", weak=0, pb=None, mode="dfs",
                   plans=sorted(set("set/%s" % p for p in e2)), exhaustive=True))
     # E3: two observers, one op each - exhaustive (a bystander sampling Ready()/Touch() next to an attach, ...)
-    e3 = ["i.r", "i.i"] if not thorough else ["i.r", "i.p", "k.z", "m.z", "g.i", "i.i", "s.k"]
+    e3 = ["i.r"] if not thorough else ["i.r", "i.p", "k.z", "m.z", "g.i", "i.i", "s.k"]
     s.append(dict(name="E3 1+2 x 1 op (exhaustive)", weak=0, pb=None, mode="dfs", maxexec=3000000,
                   plans=["set/%s" % p for p in e3], exhaustive=True))
     # B: two observers, up to two ops each - preemption-bounded DFS
-    nb = 40 if thorough else 26
-    pl = ["set/i.p", "set/ip.p", "set/k.m", "set/a.p", "set/km.p",
+    nb = 40 if thorough else 28
+    pl = ["set/i.p", "set/ip.p", "set/k.m", "set/a.p", "set/km.p", "set/i.i", "set/s.k",
           "set/U.p", "set/U.m", "set/W.p", "set/W.m", "set/Y.p", "set/UU.p"]
     while len(pl) < nb:
         f = rng.choice(FULFIL)
@@ -86,6 +86,26 @@ def suites(tier, seed):
         pl.append("%s/%s" % (f, ".".join(obs)))
     s.append(dict(name="R 1+3..4 x <=4 ops (seeded random, weak 1)", weak=1, pb=None, mode="random",
                   maxexec=600 if thorough else 150, plans=sorted(set(pl)), exhaustive=False, seed=seed))
+    # C: a combinator (WhenAny / WhenAll over this copy and an auxiliary SharedFuture of the same type, or over two copies of
+    # this state) attached next to the other observers.  ORACLE ONLY: the combinator consumes its input through
+    # SharedCore::Retire (a third move decision: GetRef()==1 ? move : copy, then DecRef; WhenAll defers it to the
+    # combinator's destruction), which Shared.v does not have; what is checked is the property text on the plain
+    # observers next to it (exactly once, the value, no moved-from read, no lost wake-up) - the combinator's own
+    # semantics are C09's / C10's subject.
+    first = "iekgmasUwpK" if not thorough else ALL
+    cpl = ["%s/%s" % (f, c) for c in "ABLD" for f in (FULFIL if thorough else ["set", "err"])]
+    cpl += ["set/%s%s" % (x, c) for x in first for c in "ABL" if x not in TERMINAL]
+    cpl += ["set/%s%s" % (c, x) for c in "AL" for x in ("igmkpU" if not thorough else ALL)]
+    s.append(dict(name="C 1+1, a combinator next to the observer's other op (exhaustive, oracle only)", weak=0, pb=None,
+                  mode="dfs", plans=sorted(set(cpl)), exhaustive=False, oracle_only=True, timeout=400, maxexec=400000))
+    dpl = ["set/%sD" % x for x in ("igks" if not thorough else "iedsukKagwpU")] + ["set/Di", "set/Dg"]
+    dpl += ["set/%s.%s" % (a, b) for a, b in (("i", "A"), ("g", "B"), ("s", "L"), ("k", "D"), ("m", "A"), ("a", "A"),
+                                                ("iA", "p"), ("A", "A"), ("w", "L"), ("U", "A"))]
+    if thorough:
+        dpl += ["%s/%s.%s" % (rng.choice(FULFIL), rand_ops(rng, 2), rng.choice("ABLD")) for _ in range(16)]
+    s.append(dict(name="C2 1+1..2, combinators incl. over two copies of this state (DFS, preemption bound %d, oracle only)" %
+                       (3 if thorough else 2), weak=0, pb=3 if thorough else 2, mode="dfs", plans=sorted(set(dpl)),
+                  exhaustive=False, oracle_only=True, timeout=400, maxexec=400000))
     # every DFS suite a second time with the switch offered right AFTER an operation instead of before it: the plain code
     # that follows an operation (e.g. a store into a node that was just published) then is a separate step; the random
     # suite offers the switch at both places
@@ -118,7 +138,7 @@ def run_suite(exe, su, workers=8):
     rows, problems = [], []
 
     def one(sh):
-        return runner.run_harness(exe, harness_args(su, sh), timeout=1500)
+        return runner.run_harness(exe, harness_args(su, sh), timeout=su.get("timeout", 1500))
 
     with concurrent.futures.ThreadPoolExecutor(max_workers=workers) as ex:
         for (r, out, err, rc), sh in zip(ex.map(one, shards), shards):
@@ -171,6 +191,10 @@ def main(ck):
         "event: it is a copy (the returned handle), an attach of a const-reading callback through that copy, the read, and the "
         "release of the copy by whoever ran the read - the same composition as co_await's awaiter; the harness attaches the outer "
         "step's continuation before the outer source is fulfilled so that the release is followed by that continuation's marker",
+        "combinators over a SharedFuture (ops A B L D: WhenAny / WhenAll over the observer's copy and an auxiliary SharedFuture of the "
+        "same type, or over two copies of the state) are exercised next to the other observers and judged by the harness oracle "
+        "only (coverage.oracle_only_traces): they consume through SharedCore::Retire (move iff GetRef()==1, then DecRef; WhenAll "
+        "at the combinator's destruction), which Shared.v does not model; their own semantics are C09's / C10's subject",
         "h_c06 offers a fiber switch only before operations on the callback word and the reference counter (and where a fiber blocks): "
         "a switch before an un-observed operation only moves un-observed work",
         "tracer reads the values through the YACLIB_VERIF after-hook (first 8 bytes of the atomic object)",
@@ -191,6 +215,7 @@ def main(ck):
     su_list = suites(ck.tier, ck.seed)
     all_traces, heads = [], []
     per_suite, crashes = [], []
+    oracle_only_traces = 0
     exhaustive_ok = True
     for su in su_list:
         rows, problems = run_suite(exe, su)
@@ -199,7 +224,11 @@ def main(ck):
         for t in ts:
             t["_suite"] = su
         heads += hs
-        all_traces += ts
+        if su.get("oracle_only"):
+            oracle_only_traces += len(ts)
+            all_traces += [t for t in ts if t["fail"]]       # judged by the harness oracle only, never mapped
+        else:
+            all_traces += ts
         ex = bool(hs) and all(h["exhaustive"] for h in hs) and len(hs) == len(su["plans"])
         if su["exhaustive"] and not ex:
             exhaustive_ok = False
@@ -215,6 +244,7 @@ def main(ck):
     ck.cov["evaluations"] = sum(h["executions"] for h in heads)
     ck.cov["scenarios"] = len(heads)
     ck.cov["suites"] = per_suite
+    ck.cov["oracle_only_traces"] = oracle_only_traces
     ck.cov["exhaustive"] = exhaustive_ok and any(p["exhaustive"] for p in per_suite)
     # ---- oracle verdicts
     seen_keys = set()
